@@ -112,6 +112,9 @@ def gen_ops(r, n):
             # the successor process is started while the old one still runs: the old one uses the context a few
             # more times (possibly across a persistence chunk boundary) and then stops cleanly
             ops.append(["handover", r.choice([0, 1, 2, 3, 5, 11, 12, 25]), r.choice([0, 0, 1, 2])])
+            if r.chance(0.4):
+                # ... and a third user of the directory turns up while the second one is busy
+                ops.append(["handover", r.choice([0, 1, 3, 12]), r.choice([0, 1])])
         else:
             ops.append([k])
     return ops
